@@ -26,6 +26,8 @@ def plan(pid, tier, seed):
         runs.append(("inductive", lambda: engines.inductive(tier, seed)))
     if pid in ("C12", "C10"):
         runs.append(("capacity", lambda: engines.capacity(tier, seed)))
+    if pid in ("C03", "C04", "C10"):
+        runs.append(("monitor", lambda: engines.monitor(tier, seed)))
     if pid in ("C03",):
         runs.append(("drive-release", lambda: engines.drive(tier, seed, release=True)))
     if pid in ("C01", "C08", "C09", "C10", "C07"):
